@@ -540,9 +540,8 @@ func checkC19(r *verdict.Run) {
 	muts := len(c19Mutators)
 	sel := make([]int, 0, muts)
 	for i := 0; i < muts; i++ {
-		if r.Tier == "thorough" || (i+int(r.Seed))%4 == 0 {
-			sel = append(sel, i)
-		}
+		// every mutator in both tiers: one writer that forgets to mark the store dirty is exactly what this part is for
+		sel = append(sel, i)
 	}
 	parallel(len(sel), 16, func(i int) { c19DirtyGating(r, sel[i], false) })
 	parallel(3, 3, func(i int) { c19DirtyGating(r, i, true) })
